@@ -63,6 +63,10 @@ CHECKS = {
             "bounded exhaustive command sequences + Hypothesis long histories against a 16-slot priority model, applied directly and as WriteProperty/ReadProperty requests between real stacks; model-based min on/off timelines under virtual time",
             "All write/relinquish sequences up to length 3 on every commandable class and up to length 4 (5 thorough) on one class per datatype, with the datatype's zero/empty value among the three values, refused commands (priority 0, 17, 255, -1, slot 0) interleaved, plus Hypothesis histories of up to 100 commands over all 16 priorities, are applied through obj.WriteProperty and over the virtual LAN; after every step present value and all 16 slots, read directly and over the wire (whole array and by element), must equal a 16-slot model. Binary objects with minimum on/off times run generated timelines of commands and time advances against a model of the priority-6 hold.",
             "The Cmd classes are registered with vendor 999 as the samples do; DateTime commandables get an explicit relinquish default; in min on/off timelines priority 6 is left to the mechanism."),
+    "C16": ("exploration",
+            "model-based timelines (Hypothesis operation lists, shrinkable) on a real COV server and 1..3 real subscriber stacks under virtual time; oracle = COV bookkeeping model with admissible sets",
+            "Generated timelines of subscribe / re-subscribe / cancel (confirmed or not, lifetimes 0..120 s, two process ids per subscriber), present-value writes around the COV increment, same-instant bursts, status-flag writes, time advances across expiry instants and reads of activeCovSubscriptions run against a real device with analog, binary, multi-state and pulse-converter objects; after every step the notifications received by each subscriber are compared with a model: acks, exactly one initial notification, one notification per qualifying change per live subscription with the right kind, current values and remaining time, none after cancellation or expiry, no duplicate subscriptions, and an active list equal to the model's.",
+            "Where the statement admits two readings (same-instant bursts; per-object vs per-subscription last reported value for analog objects) the oracle accepts both; covIncrement changes and half-specified SubscribeCOV requests are not generated."),
 }
 
 NOT_YET = {}
